@@ -170,6 +170,10 @@ func rootsOf(v ssa.Value) []memRoot {
 					return
 				}
 			}
+			if sc := x.Call.StaticCallee(); sc != nil && returnsFreshObj(sc) {
+				add(memRoot{Kind: rkLocal, Val: x})
+				return
+			}
 			add(memRoot{Kind: rkCall, Val: x})
 		case *ssa.BinOp:
 			add(memRoot{Kind: rkConst})
@@ -204,6 +208,9 @@ func isPointerLike(t types.Type) bool {
 type fnSummary struct {
 	WritesParam  []bool
 	WritesFree   []bool
+	ParamFields  []map[string]bool // fields written through each parameter ("pkg.Type.field")
+	FreeFields   []map[string]bool // fields written through each captured variable
+	LooseFields  map[string]bool   // fields written on objects of unknown provenance (call results, copied pointers)
 	WritesGlobal []string
 	Outputs      []string
 	Unknown      []string // dynamic callees treated conservatively
@@ -311,7 +318,14 @@ var nondetCallees = map[string]bool{
 func newEffects(p *Prog, fns []*ssa.Function) *effects {
 	e := &effects{p: p, sums: map[*ssa.Function]*fnSummary{}}
 	for _, f := range fns {
-		e.sums[f] = &fnSummary{WritesParam: make([]bool, len(f.Params)), WritesFree: make([]bool, len(f.FreeVars))}
+		sm := &fnSummary{WritesParam: make([]bool, len(f.Params)), WritesFree: make([]bool, len(f.FreeVars)), LooseFields: map[string]bool{}}
+		for range f.Params {
+			sm.ParamFields = append(sm.ParamFields, map[string]bool{})
+		}
+		for range f.FreeVars {
+			sm.FreeFields = append(sm.FreeFields, map[string]bool{})
+		}
+		e.sums[f] = sm
 	}
 	changed := true
 	for iter := 0; changed && iter < 20; iter++ {
@@ -336,10 +350,63 @@ func addStr(xs *[]string, s string) bool {
 	return true
 }
 
+// writeLabel names what is written at address addr: the innermost field on the address chain, or the element type.
+func writeLabel(addr ssa.Value) string {
+	a := addr
+	for i := 0; i < 8; i++ {
+		switch x := a.(type) {
+		case *ssa.FieldAddr:
+			// a field of a by-value struct nested in an object belongs to that object: name the outermost field
+			// of the chain that hangs directly off a pointer
+			outer := x
+			for {
+				if in, ok := outer.X.(*ssa.FieldAddr); ok {
+					outer = in
+					continue
+				}
+				break
+			}
+			f, _ := fieldOfAddr(outer)
+			if o := fieldOwner(f); o != nil {
+				return o.Pkg().Name() + "." + o.Name() + "." + f.Name()
+			}
+			return "." + f.Name()
+		case *ssa.IndexAddr:
+			a = x.X
+			continue
+		case *ssa.UnOp:
+			if x.Op == token.MUL {
+				a = x.X
+				continue
+			}
+		case *ssa.MakeInterface:
+			a = x.X
+			continue
+		case *ssa.Slice:
+			a = x.X
+			continue
+		}
+		break
+	}
+	return "<" + strings.ReplaceAll(addr.Type().String(), modPath+"/", "") + ">"
+}
+
 // markWrite records a write through address/pointer v in f's summary.
 func (e *effects) markWrite(f *ssa.Function, v ssa.Value, why string) bool {
+	return e.markWriteFields(f, v, map[string]bool{writeLabel(v): true})
+}
+
+func (e *effects) markWriteFields(f *ssa.Function, v ssa.Value, labels map[string]bool) bool {
 	s := e.sums[f]
 	ch := false
+	addAll := func(dst map[string]bool) {
+		for l := range labels {
+			if !dst[l] {
+				dst[l] = true
+				ch = true
+			}
+		}
+	}
 	for _, r := range rootsOf(v) {
 		switch r.Kind {
 		case rkParam:
@@ -347,27 +414,29 @@ func (e *effects) markWrite(f *ssa.Function, v ssa.Value, why string) bool {
 				s.WritesParam[r.Idx] = true
 				ch = true
 			}
+			addAll(s.ParamFields[r.Idx])
 		case rkFree:
 			if !s.WritesFree[r.Idx] {
 				s.WritesFree[r.Idx] = true
 				ch = true
 			}
+			addAll(s.FreeFields[r.Idx])
 		case rkGlobal:
 			if addStr(&s.WritesGlobal, r.Val.Name()) {
 				ch = true
 			}
-		case rkCall, rkUnknown, rkRange:
-			// writes to objects reached through call results / range elements of non-local containers:
-			// attribute to wherever the container came from when we can, else ignore (handled at use sites).
-			if r.Kind == rkRange {
-				if nx, ok := r.Val.(*ssa.Next); ok {
-					if rg, ok := nx.Iter.(*ssa.Range); ok {
-						if e.markWrite(f, rg.X, why) {
-							ch = true
-						}
+		case rkCall, rkUnknown:
+			addAll(s.LooseFields)
+		case rkRange:
+			if nx, ok := r.Val.(*ssa.Next); ok {
+				if rg, ok := nx.Iter.(*ssa.Range); ok {
+					if e.markWriteFields(f, rg.X, labels) {
+						ch = true
 					}
 				}
 			}
+			// pointers copied out of a container: provenance of the pointee is not tracked
+			addAll(s.LooseFields)
 		}
 	}
 	return ch
@@ -434,7 +503,7 @@ func (e *effects) update(f *ssa.Function) bool {
 				handled = true
 				for i, w := range cs.WritesParam {
 					if w && i < len(args) {
-						if e.markWrite(f, args[i], "callee writes") {
+						if e.markWriteFields(f, args[i], cs.ParamFields[i]) {
 							ch = true
 						}
 					}
@@ -442,10 +511,16 @@ func (e *effects) update(f *ssa.Function) bool {
 				if mc, ok := cc.Value.(*ssa.MakeClosure); ok {
 					for i, w := range cs.WritesFree {
 						if w && i < len(mc.Bindings) {
-							if e.markWrite(f, mc.Bindings[i], "closure writes") {
+							if e.markWriteFields(f, mc.Bindings[i], cs.FreeFields[i]) {
 								ch = true
 							}
 						}
+					}
+				}
+				for l := range cs.LooseFields {
+					if !s.LooseFields[l] {
+						s.LooseFields[l] = true
+						ch = true
 					}
 				}
 				for _, g := range cs.WritesGlobal {
@@ -487,12 +562,18 @@ func (e *effects) update(f *ssa.Function) bool {
 			}
 			// interface method with implementations in the loaded program
 			if cc.IsInvoke() {
-				impls := e.implementations(cc)
+				impls := e.implsAt(x)
 				if len(impls) > 0 {
 					for _, callee := range impls {
 						cs := e.sums[callee]
 						for i, w := range cs.WritesParam {
-							if w && i < len(args) && e.markWrite(f, args[i], "impl writes") {
+							if w && i < len(args) && e.markWriteFields(f, args[i], cs.ParamFields[i]) {
+								ch = true
+							}
+						}
+						for l := range cs.LooseFields {
+							if !s.LooseFields[l] {
+								s.LooseFields[l] = true
 								ch = true
 							}
 						}
@@ -512,15 +593,31 @@ func (e *effects) update(f *ssa.Function) bool {
 			}
 			// closures stored in variables / fields: call through function value
 			if !cc.IsInvoke() {
-				if cands := e.funcValueTargets(cc.Value); len(cands) > 0 {
+				if cands := e.fnTargetsAt(x); len(cands) > 0 {
 					for _, callee := range cands {
 						cs, ok := e.sums[callee]
 						if !ok {
 							continue
 						}
 						for i, w := range cs.WritesParam {
-							if w && i < len(args) && e.markWrite(f, args[i], "fn value writes") {
+							if w && i < len(args) && e.markWriteFields(f, args[i], cs.ParamFields[i]) {
 								ch = true
+							}
+						}
+						for l := range cs.LooseFields {
+							if !s.LooseFields[l] {
+								s.LooseFields[l] = true
+								ch = true
+							}
+						}
+						// a closure called through a variable: what it writes through its captured variables
+						// cannot be mapped back to the caller's roots here
+						for _, ff := range cs.FreeFields {
+							for l := range ff {
+								if !s.LooseFields[l] {
+									s.LooseFields[l] = true
+									ch = true
+								}
 							}
 						}
 						for _, g := range cs.WritesGlobal {
@@ -630,4 +727,74 @@ func (e *effects) addressTaken(f *ssa.Function) bool {
 	}
 	addrTakenCache[f] = taken
 	return taken
+}
+
+var freshCache = map[*ssa.Function]int{} // 0 unknown, 1 computing, 2 yes, 3 no
+
+// returnsFreshObj: every return of fn yields (as first result) an object allocated in fn (or by such a function).
+func returnsFreshObj(fn *ssa.Function) bool {
+	switch freshCache[fn] {
+	case 1, 3:
+		return false
+	case 2:
+		return true
+	}
+	freshCache[fn] = 1
+	ok := fn.Blocks != nil
+	n := 0
+	if ok {
+		for _, b := range fn.Blocks {
+			ret, isRet := b.Instrs[len(b.Instrs)-1].(*ssa.Return)
+			if !isRet {
+				continue
+			}
+			if len(ret.Results) == 0 {
+				ok = false
+				break
+			}
+			n++
+			for _, r := range rootsOf(retVal(ret, 0)) {
+				if r.Kind != rkLocal && r.Kind != rkConst {
+					ok = false
+				}
+			}
+		}
+	}
+	if n == 0 {
+		ok = false
+	}
+	if ok {
+		freshCache[fn] = 2
+	} else {
+		freshCache[fn] = 3
+	}
+	return ok
+}
+
+// implsAt / fnTargetsAt resolve a dynamic call site: with the VTA call graph when the program was loaded
+// deep, otherwise by signature/implements matching over the loaded functions.
+func (e *effects) implsAt(site ssa.CallInstruction) []*ssa.Function {
+	if cs, ok := e.p.DynCallees(site); ok {
+		var out []*ssa.Function
+		for _, c := range cs {
+			if e.sums[c] != nil {
+				out = append(out, c)
+			}
+		}
+		return out
+	}
+	return e.implementations(site.Common())
+}
+
+func (e *effects) fnTargetsAt(site ssa.CallInstruction) []*ssa.Function {
+	if cs, ok := e.p.DynCallees(site); ok {
+		var out []*ssa.Function
+		for _, c := range cs {
+			if e.sums[c] != nil {
+				out = append(out, c)
+			}
+		}
+		return out
+	}
+	return e.funcValueTargets(site.Common().Value)
 }
